@@ -228,8 +228,11 @@ def finish(pid, results, *, rule, explanation, assumptions, bounds, functions_hi
         path = os.path.join(REPLAY_DIR, '%s_%s.json' % (pid, hashlib.sha1(json.dumps(ce, sort_keys=True, default=str).encode()).hexdigest()[:10]))
         json.dump(ce, open(path, 'w'), indent=1, default=str)
         vio_paths.append(path)
-        print('VIOLATION property=%s replay=%s' % (pid, path))
-        print('  witness: %s' % (ce.get('witness'),))
+        if len(vio_paths) <= 8:
+            print('VIOLATION property=%s replay=%s' % (pid, path))
+            print('  witness: %s' % (ce.get('witness'),))
+        elif len(vio_paths) == 9:
+            print('  (further violations are written to %s only)' % REPLAY_DIR)
     fe = frontend.build()
     wall = time.time() - (t0 or time.time())
     cov = dict(
